@@ -550,7 +550,8 @@ def tree_features(prog):
        enum-minus : a `-` whose left operand is an if-expression over Nat branches, or a variable defined by one
                     (static type: an enum of naturals such as {2, 3})
        enum-div   : the same for `/`
-       enum-neg   : the same for unary `-`"""
+       enum-neg   : the same for unary `-`
+       enum-arith : any of + - * // % with such a left operand (the result is inferred Nat even when the right operand is an Int)"""
     feats = set()
     enum_vars = set()
 
@@ -560,7 +561,7 @@ def tree_features(prog):
         """the expression's own Erg type is Nat (whatever type the generator demanded of it: a Nat is accepted for an Int)"""
         k = e[0]
         if k == "lit":
-            return e[1] == "Nat"
+            return e[1] == "Nat" or (e[1] == "Int" and e[2] >= 0)      # the literal `1` is a Nat whatever was asked for
         if k == "var":
             return e[2] == "Nat"
         if k == "bin":
@@ -604,6 +605,8 @@ def tree_features(prog):
             feats.add("enum-minus")
         if e[0] == "bin" and e[1] == "/" and is_enum_nat(e[2]):
             feats.add("enum-div")
+        if e[0] == "bin" and e[1] in ("+", "-", "*", "//", "%") and is_enum_nat(e[2]):
+            feats.add("enum-arith")
         if e[0] == "neg" and is_enum_nat(e[1]):
             feats.add("enum-neg")
         for x in e[1:]:
